@@ -63,6 +63,12 @@ CHECKS = {
  'C12': (['asan'], 'event-log monitor: outputs of eval_double (3 variants), eval_complex_double and evalf(53) vs 50-digit mpmath evaluation of the same tree, tolerance from a measured 53-bit model error; branch-cut arguments and complex intermediates (for the real evaluators) detected by the monitor and excluded',
          'Numeric trees over every node type the evaluators implement, exact leaves; each evaluator output is compared with the reference and the three real evaluators with each other.',
          'Well-conditioned trees only (model error < 1e-10); values exactly on a branch cut are not judged.', 'DESIGN.md 3/C12'),
+ 'C16': (['asan'], 'event-log monitor: parse(str(e)) vs e by the library eq, failures classified by value with mpmath (value change = printer/parser disagreement); equal expressions built in different operand orders must print identically',
+         'Random expressions of the parseable fragment incl. 22 printing-sensitive templates, floats and booleans are printed and parsed back by the real library.',
+         'Doubles are compared up to the 15 significant digits the printer emits; zero/non-finite doubles are not judged; same-value structure changes are one recorded family.', 'DESIGN.md 3/C16'),
+ 'C17': (['asan'], 'event-log monitor: strings rendered from generator-owned syntax trees (conventional precedence/associativity, whitespace, redundant parentheses, literals, implicit multiplication, aliases) parsed by the real parser and compared by value (mpmath) with the tree built directly through the API; parse errors on grammar strings are violations',
+         'The expected reading of every string is computed by the generator, never by a second call into the parser.',
+         'Exponent operands and huge literals are kept small/in additive position (resource limits are not syntax); bare 2x**2 is not generated.', 'DESIGN.md 3/C17'),
 }
 
 def main():
